@@ -802,6 +802,10 @@ where
         let jobs_done_future = server.wait_all();
         pin_mut!(jobs_done_future);
         wait_for(jobs_done_future, job_futures.as_mut()).await?;
+        // All of our children have exited, but their job futures may not have been
+        // polled yet: let them record their results and release their locks before
+        // we block on a lock that somebody else holds.
+        job_futures.as_mut().for_each(|_| future::ready(())).await;
         // wait_all gives up our own token (and a toplevel redo puts every token
         // back in the pipe for its self-test), so get one back before going on.
         server.ensure_token_or_cheat("self", &mut cheat).await?;
